@@ -53,6 +53,8 @@ func (r *result) fail(format string, a ...interface{}) {
 
 func spawn(name string, fn func()) { verifrt.GoNamed(name, false, fn) }
 
+var curProg string
+
 func main() {
 	w = hc.Start("")
 	encoding.Register() // legacy character sets, incl. the stateful HZ-GB2312 used by C10
@@ -94,6 +96,9 @@ func main() {
 		}
 		return
 	}
+	w.WatchStall(func() (string, string, interface{}) {
+		return "schedule", "an execution of " + curProg + " does not come back to the scheduler: a thread is spinning between two synchronisation points (an endless loop in the library)", map[string]interface{}{"Scenario": curProg}
+	})
 	item := 0
 	for _, sc := range scs {
 		for _, p := range sc.params {
@@ -129,6 +134,8 @@ func main() {
 			verifrt.HashStates = *prop != "C10"
 			ex := &verifrt.Explorer{Bound: bound, MaxExec: maxExec, Stop: w.Expired, Prune: *prop != "C10", CaseCost: sc.caseCost, LevelOrder: *prop == "C10",
 				Prog: func() {
+					hc.Tick()
+					curProg = sc.name + "/" + p
 					res.reset()
 					if *prop == "C10" {
 						fmt.Fprintf(os.Stderr, "EXEC %s/%s\n", sc.name, p)
